@@ -26,6 +26,7 @@ EXPLANATION = (
     'on "]" only and is the only thing that turns keywords into identifiers; escaped identifiers are never keywords; token text is always sliced '
     'between two buffer positions of the same block and input is consumed one peeked character at a time; (9) parse results are stored into the '
     'file they came from on every path; (10) the conditions under which grammar helpers report or return (precondition ledger).')
+THOROUGH_RERUN = ['release']     # the same rules over the release build (no debug assertions): verified clean on the pinned tree
 ASSUMPTIONS = ['rustc type checking and MIR construction',
                'LALRPOP: the generated LR machinery recognises the grammar it was given and calls the reduce action of the production it recognised',
                'the wrapper actions LALRPOP generates follow its fixed template (checked: anything else fails closed)']
